@@ -605,6 +605,8 @@ def C.call (c0 : C) (call : Call) : C × CallRes :=
     match c.hello with
     | (c, some e) => fin c (some e)
     | (c, none) =>
+      -- the mechanism name (from the caller's `sasl.Client`) goes on the AUTH line: CR/LF in it is a local error
+      if !validLine mech then fin c (some .other) else
       let resp64 : Bytes := match ir with
         | none => []
         | some r => if r.isEmpty then [61] else Server.b64Encode r
